@@ -55,6 +55,9 @@ def gen_float(rng, prof):
         return round(rng.uniform(0, 1000), rng.randint(1, 4))
     if r < 0.85:
         return round(rng.uniform(-50, 50), 3)
+    if r < 0.92:
+        # full-precision doubles (16-17 significant digits) over several magnitudes: repr() gives long positional or scientific text
+        return rng.uniform(0.1, 1) * 10.0 ** rng.randint(-6, 4) * rng.choice([1, 1, -1])
     return float("%d.%de%d" % (rng.randint(1, 9), rng.randint(0, 99), rng.randint(-8, 8)))
 
 
@@ -380,8 +383,16 @@ VCF_INFO_DEFS_ALT = [
 ]
 
 
+# the same IDs and Types, only the Number differs (scalar <-> list)
+VCF_INFO_DEFS_NUM = [
+    ("DP", ".", "Integer"), ("AF", "1", "Float"), ("DB", "0", "Flag"), ("AA", "1", "String"), ("NS", "1", "Integer"), ("MQ", ".", "Float"), ("AC", "1", "Integer"),
+    ("DBID", "1", "String"), ("H2", "0", "Flag"), ("H2X", "1", "Integer"),
+]
+
+
 def info_defs(style):
-    return VCF_INFO_DEFS_ALT if (style or {}).get("info_defs_alt") else VCF_INFO_DEFS
+    v = (style or {}).get("info_defs_alt")
+    return VCF_INFO_DEFS_NUM if v == "number" else (VCF_INFO_DEFS_ALT if v else VCF_INFO_DEFS)
 
 
 class Vcf(Format):
